@@ -1,12 +1,15 @@
-Gen/GenArgs.vo Gen/GenArgs.glob Gen/GenArgs.v.beautified Gen/GenArgs.required_vo: Gen/GenArgs.v 
-Gen/GenArgs.vio: Gen/GenArgs.v 
-Gen/GenArgs.vos Gen/GenArgs.vok Gen/GenArgs.required_vos: Gen/GenArgs.v 
+Gen/GenArgs.vo Gen/GenArgs.glob Gen/GenArgs.v.beautified Gen/GenArgs.required_vo: Gen/GenArgs.v Lib/NumOps.vo
+Gen/GenArgs.vio: Gen/GenArgs.v Lib/NumOps.vio
+Gen/GenArgs.vos Gen/GenArgs.vok Gen/GenArgs.required_vos: Gen/GenArgs.v Lib/NumOps.vos
 Gen/GenAsync.vo Gen/GenAsync.glob Gen/GenAsync.v.beautified Gen/GenAsync.required_vo: Gen/GenAsync.v Lib/NumOps.vo
 Gen/GenAsync.vio: Gen/GenAsync.v Lib/NumOps.vio
 Gen/GenAsync.vos Gen/GenAsync.vok Gen/GenAsync.required_vos: Gen/GenAsync.v Lib/NumOps.vos
 Gen/GenChunk.vo Gen/GenChunk.glob Gen/GenChunk.v.beautified Gen/GenChunk.required_vo: Gen/GenChunk.v Lib/NumOps.vo
 Gen/GenChunk.vio: Gen/GenChunk.v Lib/NumOps.vio
 Gen/GenChunk.vos Gen/GenChunk.vok Gen/GenChunk.required_vos: Gen/GenChunk.v Lib/NumOps.vos
+Gen/GenObserve.vo Gen/GenObserve.glob Gen/GenObserve.v.beautified Gen/GenObserve.required_vo: Gen/GenObserve.v Lib/NumOps.vo
+Gen/GenObserve.vio: Gen/GenObserve.v Lib/NumOps.vio
+Gen/GenObserve.vos Gen/GenObserve.vok Gen/GenObserve.required_vos: Gen/GenObserve.v Lib/NumOps.vos
 Gen/GenParams.vo Gen/GenParams.glob Gen/GenParams.v.beautified Gen/GenParams.required_vo: Gen/GenParams.v Lib/NumOps.vo
 Gen/GenParams.vio: Gen/GenParams.v Lib/NumOps.vio
 Gen/GenParams.vos Gen/GenParams.vok Gen/GenParams.required_vos: Gen/GenParams.v Lib/NumOps.vos
@@ -49,6 +52,9 @@ Model/FailAux.vos Model/FailAux.vok Model/FailAux.required_vos: Model/FailAux.v 
 Model/Hist.vo Model/Hist.glob Model/Hist.v.beautified Model/Hist.required_vo: Model/Hist.v Gen/GenStruct.vo Gen/GenParams.vo Model/OrderHist.vo
 Model/Hist.vio: Model/Hist.v Gen/GenStruct.vio Gen/GenParams.vio Model/OrderHist.vio
 Model/Hist.vos Model/Hist.vok Model/Hist.required_vos: Model/Hist.v Gen/GenStruct.vos Gen/GenParams.vos Model/OrderHist.vos
+Model/Observe.vo Model/Observe.glob Model/Observe.v.beautified Model/Observe.required_vo: Model/Observe.v Gen/GenObserve.vo Model/OrderHist.vo Model/Core.vo Model/Apply.vo
+Model/Observe.vio: Model/Observe.v Gen/GenObserve.vio Model/OrderHist.vio Model/Core.vio Model/Apply.vio
+Model/Observe.vos Model/Observe.vok Model/Observe.required_vos: Model/Observe.v Gen/GenObserve.vos Model/OrderHist.vos Model/Core.vos Model/Apply.vos
 Model/OrderHist.vo Model/OrderHist.glob Model/OrderHist.v.beautified Model/OrderHist.required_vo: Model/OrderHist.v Gen/GenStruct.vo
 Model/OrderHist.vio: Model/OrderHist.v Gen/GenStruct.vio
 Model/OrderHist.vos Model/OrderHist.vok Model/OrderHist.required_vos: Model/OrderHist.v Gen/GenStruct.vos
@@ -106,6 +112,9 @@ Proofs/FailProofs.vos Proofs/FailProofs.vok Proofs/FailProofs.required_vos: Proo
 Proofs/HistProofs.vo Proofs/HistProofs.glob Proofs/HistProofs.v.beautified Proofs/HistProofs.required_vo: Proofs/HistProofs.v Gen/GenStruct.vo Gen/GenParams.vo Model/OrderHist.vo Model/Hist.vo
 Proofs/HistProofs.vio: Proofs/HistProofs.v Gen/GenStruct.vio Gen/GenParams.vio Model/OrderHist.vio Model/Hist.vio
 Proofs/HistProofs.vos Proofs/HistProofs.vok Proofs/HistProofs.required_vos: Proofs/HistProofs.v Gen/GenStruct.vos Gen/GenParams.vos Model/OrderHist.vos Model/Hist.vos
+Proofs/ObserveProofs.vo Proofs/ObserveProofs.glob Proofs/ObserveProofs.v.beautified Proofs/ObserveProofs.required_vo: Proofs/ObserveProofs.v Gen/GenObserve.vo Model/OrderHist.vo Lib/NumOps.vo Gen/GenProto.vo Model/Core.vo Spec/ProtoSpec.vo Proofs/CoreLemmas.vo Proofs/CoreCons.vo Proofs/CoreResult.vo Proofs/CoreIdent.vo Model/Apply.vo Proofs/ApplyProofs.vo Model/Observe.vo
+Proofs/ObserveProofs.vio: Proofs/ObserveProofs.v Gen/GenObserve.vio Model/OrderHist.vio Lib/NumOps.vio Gen/GenProto.vio Model/Core.vio Spec/ProtoSpec.vio Proofs/CoreLemmas.vio Proofs/CoreCons.vio Proofs/CoreResult.vio Proofs/CoreIdent.vio Model/Apply.vio Proofs/ApplyProofs.vio Model/Observe.vio
+Proofs/ObserveProofs.vos Proofs/ObserveProofs.vok Proofs/ObserveProofs.required_vos: Proofs/ObserveProofs.v Gen/GenObserve.vos Model/OrderHist.vos Lib/NumOps.vos Gen/GenProto.vos Model/Core.vos Spec/ProtoSpec.vos Proofs/CoreLemmas.vos Proofs/CoreCons.vos Proofs/CoreResult.vos Proofs/CoreIdent.vos Model/Apply.vos Proofs/ApplyProofs.vos Model/Observe.vos
 Proofs/OrderHistProofs.vo Proofs/OrderHistProofs.glob Proofs/OrderHistProofs.v.beautified Proofs/OrderHistProofs.required_vo: Proofs/OrderHistProofs.v Gen/GenStruct.vo Model/OrderHist.vo
 Proofs/OrderHistProofs.vio: Proofs/OrderHistProofs.v Gen/GenStruct.vio Model/OrderHist.vio
 Proofs/OrderHistProofs.vos Proofs/OrderHistProofs.vok Proofs/OrderHistProofs.required_vos: Proofs/OrderHistProofs.v Gen/GenStruct.vos Model/OrderHist.vos
@@ -157,6 +166,12 @@ Props/C15.vos Props/C15.vok Props/C15.required_vos: Props/C15.v Lib/NumOps.vos G
 Props/C16.vo Props/C16.glob Props/C16.v.beautified Props/C16.required_vo: Props/C16.v Lib/NumOps.vo Gen/GenProto.vo Gen/GenStruct.vo Model/Core.vo Spec/ProtoSpec.vo Proofs/CoreOrder.vo Model/OrderHist.vo Proofs/OrderHistProofs.vo
 Props/C16.vio: Props/C16.v Lib/NumOps.vio Gen/GenProto.vio Gen/GenStruct.vio Model/Core.vio Spec/ProtoSpec.vio Proofs/CoreOrder.vio Model/OrderHist.vio Proofs/OrderHistProofs.vio
 Props/C16.vos Props/C16.vok Props/C16.required_vos: Props/C16.v Lib/NumOps.vos Gen/GenProto.vos Gen/GenStruct.vos Model/Core.vos Spec/ProtoSpec.vos Proofs/CoreOrder.vos Model/OrderHist.vos Proofs/OrderHistProofs.vos
+Props/C18.vo Props/C18.glob Props/C18.v.beautified Props/C18.required_vo: Props/C18.v Gen/GenObserve.vo Lib/NumOps.vo Gen/GenProto.vo Model/Core.vo Spec/ProtoSpec.vo Proofs/CoreCons.vo Proofs/CoreResult.vo Model/Observe.vo Proofs/ObserveProofs.vo
+Props/C18.vio: Props/C18.v Gen/GenObserve.vio Lib/NumOps.vio Gen/GenProto.vio Model/Core.vio Spec/ProtoSpec.vio Proofs/CoreCons.vio Proofs/CoreResult.vio Model/Observe.vio Proofs/ObserveProofs.vio
+Props/C18.vos Props/C18.vok Props/C18.required_vos: Props/C18.v Gen/GenObserve.vos Lib/NumOps.vos Gen/GenProto.vos Model/Core.vos Spec/ProtoSpec.vos Proofs/CoreCons.vos Proofs/CoreResult.vos Model/Observe.vos Proofs/ObserveProofs.vos
+Props/C19.vo Props/C19.glob Props/C19.v.beautified Props/C19.required_vo: Props/C19.v Gen/GenObserve.vo Model/Observe.vo Proofs/ObserveProofs.vo
+Props/C19.vio: Props/C19.v Gen/GenObserve.vio Model/Observe.vio Proofs/ObserveProofs.vio
+Props/C19.vos Props/C19.vok Props/C19.required_vos: Props/C19.v Gen/GenObserve.vos Model/Observe.vos Proofs/ObserveProofs.vos
 Spec/ChunkSpec.vo Spec/ChunkSpec.glob Spec/ChunkSpec.v.beautified Spec/ChunkSpec.required_vo: Spec/ChunkSpec.v Lib/NumOps.vo Gen/GenChunk.vo Model/Chunk.vo
 Spec/ChunkSpec.vio: Spec/ChunkSpec.v Lib/NumOps.vio Gen/GenChunk.vio Model/Chunk.vio
 Spec/ChunkSpec.vos Spec/ChunkSpec.vok Spec/ChunkSpec.required_vos: Spec/ChunkSpec.v Lib/NumOps.vos Gen/GenChunk.vos Model/Chunk.vos
